@@ -86,7 +86,7 @@ class Walk:
         if "const" in o:
             return self.const(o)
         if "fn" in o or "closure" in o:
-            return ("opaque", "fn")
+            return ("fn", o.get("fn") or o.get("closure"))
         p = op_place(o)
         if p is None:
             return ("opaque", "?")
@@ -709,4 +709,75 @@ def neighbors_next(facts):
                                 % (scen, {"A": "outgoing list has an edge", "B": "only the incoming list has an edge", "C": "incoming list holds a self-loop of skip_start"}[scen],
                                    stores, got, exp[0], exp[1])))
     r.floor = 6
+    return r
+
+
+def control_flow(facts):
+    r = RuleResult("TABLE-CONTROLFLOW", "the ControlFlow impls that drive depth_first_search: Control::{Continue, Prune, Break} answer should_break / "
+                                        "should_prune by their own variant, () never breaks or prunes, and Result<C, E> forwards Ok(c) to the SAME method of c "
+                                        "and treats Err as break-not-prune")
+    impls = [b for b in facts.bodies if b.kind == "AssocFn" and b.impl_trait == "visit::dfsvisit::ControlFlow" and b.name in ("should_break", "should_prune")]
+    if len(impls) < 4:
+        r.bad(Violation("TABLE-CONTROLFLOW", "visit::dfsvisit::ControlFlow", "anchor-missing", "src/visit/dfsvisit.rs", 0, "ControlFlow impls not found - fail closed"))
+    for b in impls:
+        head = b.impl_selfhead
+
+        def oracle(w, f, args, t):
+            nm = last_seg(f["path"])
+            if nm in ("should_break", "should_prune"):
+                w.trace.append(nm)
+                return ("opaque", "inner." + nm)
+            if nm == "as_ref":
+                v = deref(args[0])
+                if isinstance(v, tuple) and v[0] == "agg":
+                    return ("agg", v[1], v[2], [("ref", x) for x in v[3]], v[4])
+                return v
+            if nm in ("map_or", "is_ok_and", "is_some_and", "map_or_else"):
+                v = deref(args[0])
+                fnv = args[-1]
+                default = args[1] if nm == "map_or" else False
+                if isinstance(v, tuple) and v[0] == "agg" and v[2] in ("Ok", "Some"):
+                    if isinstance(fnv, tuple) and fnv[0] == "fn":
+                        m = last_seg(fnv[1])
+                        w.trace.append(m)
+                        return ("opaque", "inner." + m)
+                    raise Unknown("closure argument")
+                return default
+            if nm in ("is_ok", "is_err", "is_some", "is_none"):
+                v = deref(args[0])
+                ok = isinstance(v, tuple) and v[0] == "agg" and v[2] in ("Ok", "Some")
+                return ok if nm in ("is_ok", "is_some") else not ok
+            raise Unknown("call %s" % f["path"])
+        cases = []
+        if head == "adt:visit::dfsvisit::Control":
+            a = facts.adts["visit::dfsvisit::Control"]["variants"]
+            for i, v in enumerate(a):
+                val = ("enum", i, v["name"]) if not v["fields"] else ("agg", "visit::dfsvisit::Control", v["name"], [("opaque", "b")], i)
+                want = (v["name"] == "Break") if b.name == "should_break" else (v["name"] == "Prune")
+                cases.append((v["name"], val, want))
+        elif head == "adt:core::result::Result":
+            cases.append(("Ok(c)", ("agg", "core::result::Result", "Ok", [("opaque", "c")], 0), ("opaque", "inner." + b.name)))
+            cases.append(("Err(e)", ("agg", "core::result::Result", "Err", [("opaque", "e")], 1), b.name == "should_break"))
+        elif head == "tuple":
+            cases.append(("()", ("opaque", "unit"), False))
+        else:
+            r.silent += 1
+            r.ok(b.npath, b.name, "impl for %s not modelled (silent)" % head)
+            continue
+        for (nm, val, want) in cases:
+            site = "%s(%s)" % (b.name, nm)
+            try:
+                w = Walk(facts, b, oracle, {1: ("ref", val)})
+                got = w.run()
+            except Unknown as e:
+                r.silent += 1
+                r.ok(b.npath, site, "unrecognised construct (%s): silent" % e)
+                continue
+            if got == want:
+                r.ok(b.npath, site, "-> %s" % (got,))
+            else:
+                r.bad(Violation("TABLE-CONTROLFLOW", b.npath, site, b.file, b.line,
+                                "%s for %s on %s returns %s, expected %s: a visitor's Prune/Break request would be misread by depth_first_search"
+                                % (b.name, head[4:] if head.startswith("adt:") else head, nm, got, want)))
+    r.floor = 8
     return r
